@@ -29,6 +29,8 @@ def pool(chk, mdl):
         texts += ["//h/" + g, "/" + g + "/b", g, "?" + g, "#" + g, "//" + g + "@h", "//a" + g + ".b/", "s://h/a?k=" + g + "#" + g]
     # relative references that start with an essential dot: "./b:c/../x", "./b:c/../../x", ...
     texts += ["./b:c/" + "/".join(t) for n in range(1, 4 if q else 5) for t in __import__("itertools").product(["..", ".", "x", ""], repeat=n)]
+    # a colon anywhere in the segment behind the kept dot, also in first and last position
+    texts += [pre + seg + tail for pre in ("./", "%2E/", "x/.././", "../") for seg in (":b", ":", "b:", ":80", "a:b:c") for tail in ("", "/x", "/..", "/../y")]
     for f in sorted(glob.glob(os.path.join(lib.VERIF, "corpus", PID, "*.json"))):
         texts.insert(0, json.load(open(f))["uri"])
     seen = set(); out = []
@@ -130,7 +132,8 @@ def run(chk):
     shp = lib.run_lines(mdl, ["shape_c08 %s %s %s" % (enc_s(t), sp, got) for (t, fl, o, got, sp, i) in suspects])
     for (t, fl, o, got, sp, i), sh in zip(suspects, shp):
         name = SHAPES.get(sh)
-        if name and fnd.covers(name, {"uri": t}): continue
+        # a listed finding excuses a failure only where the frozen model fails in the same way on this very input
+        if name and o == model[i] and fnd.covers(name, {"uri": t}): continue
         chk.violation("full normalization gives %s, the syntax-based normal form is %s" % (show(got), show(sp)),
                       {"request": reqs[i], "uri": t, "build": fl, "impl": o, "expected_text": show(sp), "shape": name})
     # an idempotence failure is the cancelling-relative-reference finding when the once-normalized text has that shape
@@ -142,7 +145,7 @@ def run(chk):
         shp1 = lib.run_lines(mdl, ["shape_c08 %s %s %s" % (enc_s(x[0]), spec[x[0]], x[3]) for x in twice_suspects])
         for (t, fl, o, t1, t2, i), sh, sh1 in zip(twice_suspects, shp2, shp1):
             name = SHAPES.get(sh) or SHAPES.get(sh1)
-            if name and fnd.covers(name, {"uri": t, "once": show(t1), "twice": show(t2)}): continue
+            if name and o == model[i] and fnd.covers(name, {"uri": t, "once": show(t1), "twice": show(t2)}): continue
             chk.violation("normalizing twice differs from normalizing once", {"request": reqs[i], "uri": t, "build": fl, "impl": o, "shape": name})
     if corr and not chk.violations:
         i, fl, o = corr[0]
